@@ -89,9 +89,33 @@ def parts_text(parts, escape=True):
     return out
 
 
-def serialise(node, prefix='tal'):
+NS_URI = {'tal': 'http://xml.zope.org/namespaces/tal', 'metal': 'http://xml.zope.org/namespaces/metal',
+          'i18n': 'http://xml.zope.org/namespaces/i18n', 'meta': 'http://xml.zope.org/namespaces/meta'}
+
+
+def attr_name(spelling, ns, name):
+    """spelling of a language attribute: prefix form (possibly renamed prefix) or data- form"""
+    if spelling and spelling.get('form') == 'data':
+        return 'data-%s-%s' % (ns, name)
+    pfx = (spelling or {}).get('prefixes', {}).get(ns, ns)
+    return '%s:%s' % (pfx, name)
+
+
+def declarations(spelling):
+    out = []
+    for ns, pfx in sorted((spelling or {}).get('prefixes', {}).items()):
+        if pfx != ns:
+            out.append('xmlns:%s="%s"' % (pfx, NS_URI[ns]))
+    return out
+
+
+def serialise(node, prefix='tal', spelling=None, root=True):
     """Template text of a node (element, text, interpolation) -- the *generator's* rendering of the
-    program, used as input for the real compiler."""
+    program, used as input for the real compiler.  ``spelling`` re-spells the language attributes:
+    {'form': 'prefix'|'data', 'prefixes': {'tal': 't', ...}, 'declare': 'root'|'each',
+     'element_form': True (elements flagged ns_element are written as <tal:tag unprefixed-statements>)}"""
+    if spelling is None and prefix != 'tal':
+        spelling = {'prefixes': {'tal': prefix}}
     if isinstance(node, str):
         return node
     if 'interp' in node:
@@ -106,28 +130,44 @@ def serialise(node, prefix='tal'):
     out = ''
     if node.get('indent') is not None:
         out += '\n' + ' ' * node['indent']
-    out += '<' + node['tag']
-    stat = ['%s="%s"' % (n, v if isinstance(v, str) else ''.join(
+    as_element = bool(spelling and spelling.get('element_form') and node.get('ns_element'))
+    tag = node['tag']
+    if as_element:
+        tag = (spelling.get('prefixes', {}).get('tal', 'tal')) + ':' + tag
+    out += '<' + tag
+    stat = ['%s=%s%s%s' % (n, q, v if isinstance(v, str) else ''.join(
         x if isinstance(x, str) else ('$$' * x['dollar'] if 'dollar' in x else
-                                      '${' + attr_escape(expr_text(x['interp'])) + '}') for x in v))
-        for n, v in node.get('static', [])]
+                                      '${' + attr_escape(expr_text(x['interp'])) + '}') for x in v), q)
+        for n, v, q in [(a[0], a[1], a[2] if len(a) > 2 else '"') for a in node.get('static', [])]]
+    decl = []
+    if spelling and ((root and spelling.get('declare', 'root') == 'root') or
+                     (spelling.get('declare') == 'each' and any(s in node for s in STATEMENTS))):
+        decl = declarations(spelling)
+    lang = []
     if node.get('interp_switch'):
-        stat.append('meta:interpolation="%s"' % node['interp_switch'])
+        lang.append('%s="%s"' % (attr_name(spelling, 'meta', 'interpolation'), node['interp_switch']))
     for key, attr in (('define_macro', 'define-macro'), ('use_macro', 'use-macro'), ('extend_macro', 'extend-macro'),
                       ('fill_slot', 'fill-slot'), ('define_slot', 'define-slot')):
         if node.get(key):
-            stat.append('metal:%s="%s"' % (attr, attr_escape(node[key])))
+            lang.append('%s="%s"' % (attr_name(spelling, 'metal', attr), attr_escape(node[key])))
     for key in ('translate', 'name', 'domain', 'context', 'target', 'attributes'):
         if ('i18n_' + key) in node:
-            stat.append('i18n:%s="%s"' % (key, attr_escape(node['i18n_' + key])))
+            lang.append('%s="%s"' % (attr_name(spelling, 'i18n', key), attr_escape(node['i18n_' + key])))
     present = [s for s in node.get('order', STATEMENTS) if s in node]
     present += [s for s in STATEMENTS if s in node and s not in present]
-    dyn = ['%s:%s="%s"' % (prefix, TALNAME.get(s, s), attr_escape(statement_text(node, s)))
-           for s in present]
+    dyn = []
+    for st in present:
+        if as_element:
+            if st == 'omit':
+                continue                     # the element form implies the omission of the tag
+            dyn.append('%s="%s"' % (TALNAME.get(st, st), attr_escape(statement_text(node, st))))
+        else:
+            dyn.append('%s="%s"' % (attr_name(spelling, 'tal', TALNAME.get(st, st)),
+                                    attr_escape(statement_text(node, st))))
     # statement attributes are interleaved after the static ones unless 'mix' asks otherwise
-    parts = stat + dyn
+    parts = decl + stat + lang + dyn
     if node.get('mix'):
-        parts = dyn[:1] + stat + dyn[1:]
+        parts = decl + dyn[:1] + stat + lang + dyn[1:]
     for p in parts:
         out += ' ' + p
     children = node.get('children')
@@ -136,10 +176,10 @@ def serialise(node, prefix='tal'):
         return out
     out += '>'
     for c in children:
-        out += serialise(c, prefix)
+        out += serialise(c, prefix, spelling, False)
     if node.get('close_indent') is not None:
         out += '\n' + ' ' * node['close_indent']
-    out += '</' + node['tag'] + '>'
+    out += '</' + tag + '>'
     return out
 
 
